@@ -1,5 +1,414 @@
+//! Nogood-store family (C18): histories of `add_ng` / `set_dup_elem` on one `NoGoodStore`,
+//! queried with `conclusions` and `conclusion_closure`.
+//!
+//! requests                        implementation's answers
+//! `ngnew N`                       -
+//! `ngmode None|Equiv|Subsume`     -
+//! `ngadd <vec>`                   `= ok`, then `nogoodcheck store <dump>` / `~ ok`
+//! `ngconcl <vec>`                 `= conflict` | `= <vec> <update flag>`, then `nogoodcheck concl <vec> <answer>` / `~ ok`
+//! `ngclosure <vec>`               `= inconsistent` | `= noupdate` | `= update <vec>`, then `nogoodcheck closure …` / `~ ok`
+//! `ngdump`                        `= [bucket0|bucket1|…]`
+//! `ngfinish`                      the statistics line of the case
+//!
+//! `<vec>`: `T`/`F`/`u` per variable, `-` for width 0. The `nogoodcheck` requests hand the
+//! implementation's own answer to the executable specification of the model driver, which
+//! answers `~ ok` or `~ violated <clauses>`.
 use crate::{rng::Rng, Out};
-pub fn gen(_r: &mut Rng, _cases: usize, _size: usize,  _out: &mut Out) {}
+use adf_bdd::datatypes::Term;
+use adf_bdd::nogoods::{DuplicateElemination, NoGood, NoGoodStore};
+use std::panic::{catch_unwind, AssertUnwindSafe};
+
+const MODES: [&str; 3] = ["None", "Equiv", "Subsume"];
+
+fn show(v: &[u8]) -> String {
+    if v.is_empty() {
+        "-".to_string()
+    } else {
+        v.iter().map(|x| match x { 0 => 'F', 1 => 'T', _ => 'u' }).collect()
+    }
+}
+
+fn parse(w: &str) -> Option<Vec<u8>> {
+    if w == "-" {
+        return Some(Vec::new());
+    }
+    w.chars()
+        .map(|c| match c {
+            'F' => Some(0u8),
+            'T' => Some(1),
+            'u' => Some(2),
+            _ => None,
+        })
+        .collect()
+}
+
+// ------------------------------------------------------------------------------------------
+// generator
+
+fn rand_partial(r: &mut Rng, n: usize, num: u64, den: u64) -> Vec<u8> {
+    (0..n).map(|_| if r.chance(num, den) { r.below(2) as u8 } else { 2 }).collect()
+}
+
+fn positions(v: &[u8], decided: bool) -> Vec<usize> {
+    (0..v.len()).filter(|i| (v[*i] != 2) == decided).collect()
+}
+
+/// the next nogood of a history: empty, full-length, nested (super-/subset of an earlier one),
+/// duplicate, complementary, unit or random
+fn gen_nogood(r: &mut Rng, n: usize, pool: &[Vec<u8>]) -> Vec<u8> {
+    let kind = r.below(30);
+    let base = if pool.is_empty() { None } else { Some(pool[r.usize(pool.len())].clone()) };
+    match (kind, base) {
+        (0, _) => vec![2; n],
+        (1 | 2, _) => (0..n).map(|_| r.below(2) as u8).collect(),
+        (3..=6, Some(mut g)) => {
+            // a weaker nogood: more literals
+            for _ in 0..r.range(1, 2) {
+                let u = positions(&g, false);
+                if !u.is_empty() {
+                    g[u[r.usize(u.len())]] = r.below(2) as u8;
+                }
+            }
+            g
+        }
+        (7..=10, Some(mut g)) => {
+            // a stronger nogood: fewer literals
+            for _ in 0..r.range(1, 2) {
+                let d = positions(&g, true);
+                if !d.is_empty() {
+                    g[d[r.usize(d.len())]] = 2;
+                }
+            }
+            g
+        }
+        (11 | 12, Some(g)) => g,
+        (13..=16, Some(mut g)) => {
+            // complementary: one literal flipped
+            let d = positions(&g, true);
+            if !d.is_empty() {
+                let p = d[r.usize(d.len())];
+                g[p] = 1 - g[p];
+            }
+            g
+        }
+        (17 | 18, _) if n > 0 => {
+            let mut g = vec![2; n];
+            g[r.usize(n)] = r.below(2) as u8;
+            g
+        }
+        _ => {
+            let num = r.range(2, 4) as u64;
+            rand_partial(r, n, num, 5)
+        }
+    }
+}
+
+/// an interpretation to query: undecided, total, matching / almost matching / complementing an
+/// added nogood (with random further decisions), or random
+fn gen_interp(r: &mut Rng, n: usize, pool: &[Vec<u8>]) -> Vec<u8> {
+    let kind = r.below(16);
+    let base = if pool.is_empty() { None } else { Some(pool[r.usize(pool.len())].clone()) };
+    let extend = |r: &mut Rng, mut v: Vec<u8>, skip: Option<usize>| -> Vec<u8> {
+        let num = r.below(3);
+        for i in 0..v.len() {
+            if v[i] == 2 && Some(i) != skip && r.chance(num, 5) {
+                v[i] = r.below(2) as u8;
+            }
+        }
+        v
+    };
+    match (kind, base) {
+        (0, _) => vec![2; n],
+        (1, _) => (0..n).map(|_| r.below(2) as u8).collect(),
+        (2, Some(g)) => extend(r, g, None),
+        (3..=8, Some(mut g)) => {
+            // all but one literal of an added nogood: a unit conclusion is due
+            let d = positions(&g, true);
+            if d.is_empty() {
+                extend(r, g, None)
+            } else {
+                let p = d[r.usize(d.len())];
+                g[p] = 2;
+                let keep_open = if r.chance(3, 4) { Some(p) } else { None };
+                extend(r, g, keep_open)
+            }
+        }
+        (9, Some(mut g)) => {
+            let d = positions(&g, true);
+            if !d.is_empty() {
+                let p = d[r.usize(d.len())];
+                g[p] = 1 - g[p];
+            }
+            extend(r, g, None)
+        }
+        _ => {
+            let num = r.range(0, 3) as u64;
+            rand_partial(r, n, num, 5)
+        }
+    }
+}
+
+pub fn gen(r: &mut Rng, cases: usize, size: usize, out: &mut Out) {
+    let maxv = if size == 0 { 6 } else { size.min(10) };
+    for case in 0..cases {
+        let n = if r.chance(1, 25) { 0 } else { r.range(1.min(maxv), maxv) };
+        out.line(&format!("case ng-{case}"));
+        out.line(&format!("ngnew {n}"));
+        if r.chance(2, 3) {
+            out.line(&format!("ngmode {}", MODES[r.usize(3)]));
+        }
+        let mut pool: Vec<Vec<u8>> = Vec::new();
+        let query = |r: &mut Rng, pool: &[Vec<u8>], out: &mut Out| {
+            let v = show(&gen_interp(r, n, pool));
+            match r.below(3) {
+                0 => out.line(&format!("ngconcl {v}")),
+                1 => out.line(&format!("ngclosure {v}")),
+                _ => {
+                    out.line(&format!("ngconcl {v}"));
+                    out.line(&format!("ngclosure {v}"));
+                }
+            }
+        };
+        let adds = r.range(0, 8);
+        for _ in 0..adds {
+            if r.chance(1, 5) {
+                out.line(&format!("ngmode {}", MODES[r.usize(3)]));
+            }
+            let g = gen_nogood(r, n, &pool);
+            out.line(&format!("ngadd {}", show(&g)));
+            pool.push(g);
+            if r.chance(1, 2) {
+                out.line("ngdump");
+            }
+            if r.chance(1, 3) {
+                query(r, &pool, out);
+            }
+        }
+        out.line("ngdump");
+        for _ in 0..r.range(2, 5) {
+            query(r, &pool, out);
+        }
+        out.line("ngfinish");
+    }
+}
+
+// ------------------------------------------------------------------------------------------
+// executor
+
 #[derive(Default)]
-pub struct Exec {}
-impl Exec { pub fn exec(&mut self, _ws: &[&str], _l: &str, _out: &mut Out) -> bool { false } }
+pub struct Exec {
+    store: Option<NoGoodStore>,
+    n: usize,
+    mode: usize,
+    modes_used: [bool; 3],
+    adds: usize,
+    switches: usize,
+    queries: usize,
+    conflicts: usize,
+    concluded: usize,
+}
+
+fn terms(v: &[u8]) -> Vec<Term> {
+    v.iter()
+        .enumerate()
+        .map(|(i, x)| match x {
+            0 => Term::BOT,
+            1 => Term::TOP,
+            _ => Term(2 + i),
+        })
+        .collect()
+}
+
+fn show_terms(v: &[Term]) -> String {
+    show(&v.iter().map(|t| if t.is_truth_value() { t.is_true() as u8 } else { 2 }).collect::<Vec<u8>>())
+}
+
+#[cfg(adf_obdd_verif)]
+fn dump(store: &NoGoodStore, n: usize) -> (String, usize) {
+    let mut stored = 0;
+    let buckets: Vec<String> = store
+        .verif_dump()
+        .iter()
+        .map(|bucket| {
+            bucket
+                .iter()
+                .map(|(active, value)| {
+                    stored += 1;
+                    let width = active.iter().map(|p| *p as usize + 1).max().unwrap_or(0).max(n);
+                    let v: Vec<u8> = (0..width as u32)
+                        .map(|p| if !active.contains(&p) { 2 } else { value.contains(&p) as u8 })
+                        .collect();
+                    show(&v)
+                })
+                .collect::<Vec<_>>()
+                .join(",")
+        })
+        .collect();
+    (format!("[{}]", buckets.join("|")), stored)
+}
+
+#[cfg(not(adf_obdd_verif))]
+fn dump(_store: &NoGoodStore, _n: usize) -> (String, usize) {
+    ("no-hook".to_string(), 0)
+}
+
+#[cfg(adf_obdd_verif)]
+fn closure(store: &NoGoodStore, v: &[Term]) -> String {
+    match store.verif_conclusion_closure(v) {
+        None => "inconsistent".to_string(),
+        Some((_, false)) => "noupdate".to_string(),
+        Some((r, true)) => format!("update {}", show_terms(&r)),
+    }
+}
+
+#[cfg(not(adf_obdd_verif))]
+fn closure(_store: &NoGoodStore, _v: &[Term]) -> String {
+    "no-hook".to_string()
+}
+
+impl Exec {
+    /// the interpretation / nogood of a request, if it has the width of the store
+    fn vec(&self, w: &str) -> Option<Vec<u8>> {
+        parse(w).filter(|v| v.len() == self.n)
+    }
+
+    pub fn exec(&mut self, ws: &[&str], l: &str, out: &mut Out) -> bool {
+        match ws[0] {
+            "ngnew" if ws.len() == 2 => {
+                out.line(l);
+                match ws[1].parse::<usize>() {
+                    Ok(n) if n <= 10 => {
+                        *self = Exec::default();
+                        self.n = n;
+                        self.mode = 1;
+                        self.store = Some(NoGoodStore::new(n as u32));
+                    }
+                    _ => out.line("= bad-request"),
+                }
+                true
+            }
+            "nogoodcheck" => true, // regenerated by `ngadd`, `ngconcl`, `ngclosure`
+            "ngmode" | "ngadd" | "ngconcl" | "ngclosure" | "ngdump" | "ngfinish" if self.store.is_none() => {
+                // no `ngnew` yet: the store of width 0, as in the model driver
+                self.n = 0;
+                self.mode = 1;
+                self.store = Some(NoGoodStore::new(0));
+                self.exec(ws, l, out)
+            }
+            "ngmode" if ws.len() == 2 => {
+                out.line(l);
+                let store = self.store.as_mut().unwrap();
+                match MODES.iter().position(|m| *m == ws[1]) {
+                    Some(m) => {
+                        store.set_dup_elem(match m {
+                            0 => DuplicateElemination::None,
+                            1 => DuplicateElemination::Equiv,
+                            _ => DuplicateElemination::Subsume,
+                        });
+                        if self.adds > 0 && m != self.mode {
+                            self.switches += 1;
+                        }
+                        self.mode = m;
+                    }
+                    None => out.line("= bad-request"),
+                }
+                true
+            }
+            "ngadd" if ws.len() == 2 => {
+                out.line(l);
+                out.flush();
+                let Some(g) = self.vec(ws[1]) else {
+                    out.line("= bad-request");
+                    return true;
+                };
+                let n = self.n;
+                let store = self.store.as_mut().unwrap();
+                let ng = NoGood::from_term_vec(&terms(&g));
+                let res = catch_unwind(AssertUnwindSafe(|| {
+                    store.add_ng(ng);
+                    dump(store, n).0
+                }));
+                self.adds += 1;
+                self.modes_used[self.mode] = true;
+                match res {
+                    Ok(d) => {
+                        out.line("= ok");
+                        // the stored nogoods are handed to the specification: do they exclude
+                        // exactly what the added ones exclude?
+                        out.line(&format!("nogoodcheck store {d}"));
+                    }
+                    Err(_) => {
+                        out.line("= panic");
+                        out.line("nogoodcheck store panic");
+                    }
+                }
+                out.line("~ ok");
+                true
+            }
+            "ngconcl" | "ngclosure" if ws.len() == 2 => {
+                out.line(l);
+                out.flush();
+                let Some(a) = self.vec(ws[1]) else {
+                    out.line("= bad-request");
+                    return true;
+                };
+                let store = self.store.as_ref().unwrap();
+                let tv = terms(&a);
+                let is_concl = ws[0] == "ngconcl";
+                let res = catch_unwind(AssertUnwindSafe(|| {
+                    if is_concl {
+                        match store.conclusions(&NoGood::from_term_vec(&tv)) {
+                            None => "conflict".to_string(),
+                            Some(c) => {
+                                let mut upd = false;
+                                let r = c.update_term_vec(&tv, &mut upd);
+                                format!("{} {}", show_terms(&r), upd as u8)
+                            }
+                        }
+                    } else {
+                        closure(store, &tv)
+                    }
+                }));
+                let ans = res.unwrap_or_else(|_| "panic".to_string());
+                self.queries += 1;
+                if ans == "conflict" || ans == "inconsistent" {
+                    self.conflicts += 1;
+                } else if ans.starts_with("update") || ans.ends_with(" 1") {
+                    self.concluded += 1;
+                }
+                out.line(&format!("= {ans}"));
+                out.line(&format!("nogoodcheck {} {} {}", if is_concl { "concl" } else { "closure" }, ws[1], ans));
+                out.line("~ ok");
+                true
+            }
+            "ngdump" if ws.len() == 1 => {
+                out.line(l);
+                let store = self.store.as_ref().unwrap();
+                let n = self.n;
+                match catch_unwind(AssertUnwindSafe(|| dump(store, n).0)) {
+                    Ok(d) => out.line(&format!("= {d}")),
+                    Err(_) => out.line("= panic"),
+                }
+                true
+            }
+            "ngfinish" if ws.len() == 1 => {
+                out.line(l);
+                let store = self.store.as_ref().unwrap();
+                let n = self.n;
+                let stored = catch_unwind(AssertUnwindSafe(|| dump(store, n).1)).unwrap_or(0);
+                let used: Vec<&str> = (0..3).filter(|m| self.modes_used[*m]).map(|m| MODES[m]).collect();
+                let mode = match used.len() {
+                    0 => "-".to_string(),
+                    1 => used[0].to_string(),
+                    _ => "mixed".to_string(),
+                };
+                out.line(&format!(
+                    "# case ng vars={} nogoods={} stored={} mode={} switches={} queries={} conflicts={} concluded={}",
+                    self.n, self.adds, stored, mode, self.switches, self.queries, self.conflicts, self.concluded
+                ));
+                true
+            }
+            _ => false,
+        }
+    }
+}
